@@ -874,7 +874,24 @@ def _table(ctx) -> None:
                       and x.seq > last and x.term[1][1] in prog.functions), key=lambda x: x.seq)
         if inl:
             from ..symx import Interp as _SI2
-            falls = _SI2(prog, prog.functions[inl[0].term[1][1]]).falls_through
+            helper = prog.functions[inl[0].term[1][1]]
+            falls = _SI2(prog, helper).falls_through
+            if falls:
+                # running off the end AFTER the cells were written is a return like any other: what must not happen is a path from the
+                # entry to the end that passes no cell store, no raise and no return (an unsupported value silently ignored)
+                hcfg = _cfg_of(helper)
+
+                def ends_path(n) -> bool:
+                    a_ = n.ast
+                    if isinstance(a_, (ast.Raise, ast.Return)):
+                        return True
+                    if isinstance(a_, ast.Assign) and n.kind == "stmt":
+                        return any(isinstance(t_, ast.Subscript) for t_ in a_.targets)
+                    if isinstance(a_, (ast.For, ast.While)):
+                        return any(isinstance(x, ast.Assign) and any(isinstance(t_, ast.Subscript) for t_ in x.targets) for x in ast.walk(a_))
+                    return False
+                starts_ = [(hcfg.entry, s_) for s_, _lab in hcfg.entry.succ]
+                falls = _flag_paths(hcfg, starts_, [hcfg.exit], ends_path, ()) is not None
     ctx.ob("f.table-delegation", f, "final-raise", bool(fin) and not falls,
            "unsupported value types raise SerifTypeError", f.node, message="Table.__setitem__ does not end by raising for unsupported values")
 
